@@ -600,6 +600,7 @@ struct Gen<'g> {
     g: &'g Grammar,
     o: Opts,
     uniq: u32,
+    last_overwrite: Option<String>,
     beyond_left: bool,   // one beyond-limit literal still to be placed
     beyond_used: Option<String>,
     has_a2ml: u8,        // 0: no A2ML seen in this module, 1/2: spec number
@@ -609,7 +610,7 @@ struct Gen<'g> {
 impl<'g> Gen<'g> {
     fn new(g: &'g Grammar, seed: u64, o: Opts) -> Self {
         let beyond_left = o.beyond;
-        Gen { rng: Rng::new(seed), g, o, uniq: 0, beyond_left, beyond_used: None, has_a2ml: 0, big: false }
+        Gen { rng: Rng::new(seed), g, o, uniq: 0, last_overwrite: None, beyond_left, beyond_used: None, has_a2ml: 0, big: false }
     }
     fn ident(&mut self) -> String {
         self.uniq += 1;
@@ -717,7 +718,21 @@ impl<'g> Gen<'g> {
             return;
         }
         d.begin(tag);
-        self.params(d, &def.ps, 0);
+        if tag == "INSTANCE" {
+            self.last_overwrite = None;
+        }
+        if tag == "OVERWRITE" {
+            // several OVERWRITE blocks of one INSTANCE may name the same component (they differ in the axis number): valid A2L
+            let name = match (self.last_overwrite.clone(), self.rng.chance(50)) {
+                (Some(n), true) => n,
+                _ => self.ident(),
+            };
+            self.last_overwrite = Some(name.clone());
+            d.val(Tk::Word(name), 0);
+            self.params(d, &def.ps[1..], 0);
+        } else {
+            self.params(d, &def.ps, 0);
+        }
         // choose children
         let mut chosen: Vec<String> = Vec::new();
         let pct = if self.big { 70 } else if def.opt.len() > 20 { 18 } else { 45 };
